@@ -185,7 +185,11 @@ func report(a RunArgs, eng Engine, engName string, info Info, results []*Result,
 		}, "", " ")
 		_ = os.WriteFile(filepath.Join(dir, "violation.json"), vb, 0o644)
 		vlines = append(vlines, fmt.Sprintf("VIOLATION property=%s replay=%s", a.Prop, dir))
-		fmt.Printf("  violation sig=%q case=%s opt=%s (%d occurrences)\n    %s\n", sig, v.r.Name, v.v.Opt, len(bySig[sig]), firstLines(v.v.Detail, 6))
+		nl := 6
+		if a.Replay != "" {
+			nl = 40
+		}
+		fmt.Printf("  violation sig=%q case=%s opt=%s (%d occurrences)\n    %s\n", sig, v.r.Name, v.v.Opt, len(bySig[sig]), firstLines(v.v.Detail, nl))
 	}
 
 	wall := time.Since(t0).Seconds()
